@@ -14,8 +14,9 @@
   Bytes are identifiable: byte `off` of the data passed to the call numbered `id` is `(id, off)`.
 
   Not modelled: UV_HANDLE_BLOCKING_WRITES (set by tty.c only; C05 is about TCP/pipe streams),
-  the read side, a send_handle that is itself closing (UV_EBADF branch at 785), the UV_ENOMEM
-  return of uv_write2 (C16), macOS branches.
+  the read side, a send_handle that is itself closing (UV_EBADF branch at 785), macOS branches.
+  Allocation failure of the uv_buf_t vector in uv_write2 (nbufs > 4) is an input (`writeNoMem`);
+  the request-counter side of that path belongs to C16.
 -/
 namespace UvModel.StreamW
 
@@ -29,6 +30,9 @@ def UV_EBADF : Int := -9
 def UV_EINVAL : Int := -22
 def UV_ENOTCONN : Int := -107
 def UV_ECANCELED : Int := -125
+def UV_ENOMEM : Int := -12
+/-- ARRAY_SIZE(req->bufsml): larger vectors are heap-allocated by uv_write2 -/
+def BUFSML : Nat := 4
 
 /-- what one write/writev/sendmsg call does: accept `min k requested` bytes, or fail with errno -/
 inductive Outcome where
@@ -39,6 +43,7 @@ deriving DecidableEq, Repr, Inhabited
 /-- API operations (callable from the main program and from inside callbacks) -/
 inductive Op where
   | write (bufs : List Nat) (send : Bool)       -- uv_write2 with buffer lengths; send_handle given?
+  | writeNoMem (bufs : List Nat) (send : Bool)  -- the same call while uv__malloc refuses the next allocation
   | tryWrite (bufs : List Nat) (send : Bool)    -- uv_try_write2
   | shutdown
   | close
@@ -229,11 +234,14 @@ def checkBeforeWrite (s : S) (send : Bool) : Int :=
   else 0
 
 /-- uv_write2 (1333-1401); returns (state, return code) -/
-def write2 (s : S) (bufs : List Nat) (send : Bool) : S × Int :=
+def write2 (s : S) (bufs : List Nat) (send : Bool) (nomem : Bool := false) : S × Int :=
   let id := s.nextId
   let s := { s with nextId := s.nextId + 1 }
   let err := checkBeforeWrite s send
   if err < 0 then (s, err)
+  -- 1375-1382: the vector is heap-allocated only when nbufs > ARRAY_SIZE(bufsml); on failure the
+  -- request is unregistered and nothing else has been touched yet
+  else if nomem ∧ bufs.length > BUFSML then (s, UV_ENOMEM)
   else
     let emptyQueue := s.wqs == 0
     let r : Req := { id := id, bufs := bufs, send := send, total := totalOf bufs }
@@ -278,6 +286,7 @@ def closeOp (s : S) : S × Int :=
 def apiOp (s : S) (o : Op) : S :=
   let r := match o with
     | .write bufs send => write2 s bufs send
+    | .writeNoMem bufs send => write2 s bufs send true
     | .tryWrite bufs send => tryWrite2 s bufs send
     | .shutdown => shutdownOp s
     | .close => closeOp s
